@@ -307,6 +307,13 @@ func (f *Fix) StoreDigest(storeNames ...string) string {
 // It returns the new fixture (same height and time), the two exports (original and re-export of
 // the imported chain) and the error/panic of the import, if any.
 func (f *Fix) ImportedCopy() (f2 *Fix, exp1, exp2 map[string]json.RawMessage, err error) {
+	return f.ImportedCopyOpt(false)
+}
+
+// ImportedCopyOpt with withProposer puts a bonded validator of the exporting chain into the header
+// of the InitChainer context (InitChain itself has none).  Only used to continue a comparison after
+// the faithful import was rejected for exactly that reason.
+func (f *Fix) ImportedCopyOpt(withProposer bool) (f2 *Fix, exp1, exp2 map[string]json.RawMessage, err error) {
 	defer func() {
 		if e := recover(); e != nil {
 			err = &PanicError{Val: e, Stack: string(debug.Stack())}
@@ -320,6 +327,14 @@ func (f *Fix) ImportedCopy() (f2 *Fix, exp1, exp2 map[string]json.RawMessage, er
 	a2, _ := apptesting.SetupTestingApp()
 	f2 = &Fix{T: f.T, App: a2, Height: f.Height, Time: f.Time}
 	f2.setCtx()
+	if withProposer {
+		if vals, verr := f.App.StakingKeeper.GetAllValidators(f.Ctx); verr == nil && len(vals) > 0 {
+			ca, _ := vals[0].GetConsAddr()
+			h := f2.Ctx.BlockHeader()
+			h.ProposerAddress = ca
+			f2.Ctx = f2.Ctx.WithBlockHeader(h)
+		}
+	}
 	if _, err = a2.InitChainer(f2.Ctx, &abci.RequestInitChain{ChainId: apptesting.TestChainID, AppStateBytes: bz, Time: f.Time, InitialHeight: f.Height}); err != nil {
 		return f2, exp1, nil, err
 	}
